@@ -9,12 +9,18 @@ PROTOCOL_PF_FD = (0xEA, 0xEE, 0x4D, 0x4E, 0x25, 0xEB, 0xEC)
 class Stack:
     """one node with one CA (claim bypassed) and recording listeners"""
 
-    def __init__(self, w, name, addr, dll='j1939-21', ecu_listener=False, **kw):
+    def __init__(self, w, name, addr, dll='j1939-21', ecu_listener=False, claim=None, **kw):
+        """claim: None = address claim bypassed; otherwise a claim history of make_ca (e.g. 'normal_veto'): the CA
+        runs the real claim procedure and its one-shot claim timer keeps re-arming every 0.5 s"""
         self.w = w
         self.name = name
         self.addr = addr
         self.node = w.add_node(name, dll=dll, **kw)
-        self.ca = self.node.add_ca(addr)
+        if claim is None:
+            self.ca = self.node.add_ca(addr)
+        else:
+            self.ca, held = make_ca(w, self.node, claim, addr, ident=500 + addr)
+            self.addr = held
         self.rx = []        # deliveries to the CA's listener: dict(prio, pgn, sa, data, t)
         self.rx_ecu = []    # deliveries to an unfiltered ECU-level listener
         self.ca.subscribe(self._on_ca)
